@@ -28,12 +28,14 @@ import (
 	"github.com/pilosa/pilosa/server"
 	"github.com/pkg/errors"
 	"verifharness/vh"
+	"verifharness/vh/srv2"
 )
 
 const sw = pilosa.ShardWidth
 
 type prop struct {
 	m   *server.Command
+	cl  *srv2.Cluster // 3 nodes, replicas 2 (rtc lines), started on first use
 	idx int
 }
 
@@ -43,6 +45,8 @@ func (p *prop) Rule() string {
 		"unkeyed columns at shard edges of shards 0-3, another field raising the index's max shard; BufferSize 0-4 or 1000) exported by " +
 		"ctl.ExportCommand and imported by ctl.ImportCommand into an empty field of the same type; non-trivial = at least one bit. " +
 		"csvw/csvr/csvrt: records / arbitrary text over the CSV-significant alphabet through encoding/csv; non-trivial = contains a quote, comma, CR or LF. " +
+		"rtc: the rt round trip for keyed fields on an in-process 3-node cluster with 2 replicas (export through node 1, import through node 2 -> coordinator), " +
+		"every node's fragments read separately: each owner of each destination shard must hold the shard's pairs, no other node any (a few per quick run, 1 in 40 cases in thorough). " +
 		"pu: decimal id strings at the uint64 boundary through strconv.ParseUint. imp: generated and mutated CSV text (blank first fields, short records, bad ids, overflow ids, third columns, stray quotes) imported into an empty field; non-trivial = at least one record"
 }
 
@@ -322,12 +326,55 @@ func b2i(b bool) int {
 	return 0
 }
 
+// genRTC: a keyed round trip on the cluster; clean keys only (the recorded single-node findings are
+// exercised by rt lines), several bits so that more than one owner pair is hit when columns are ids.
+func (p *prop) genRTC(r *vh.Rng) string {
+	rk, ck := true, r.Bool()
+	if r.Chance(1, 4) {
+		rk, ck = false, true
+	}
+	clean := func() string {
+		for {
+			k := genKey(r)
+			if k != "" && !strings.Contains(k, "\r\n") && len([]rune(k)) < 50 {
+				return k
+			}
+		}
+	}
+	var rowPool, colPool []string
+	for i := 0; i < r.Range(1, 3); i++ {
+		if rk {
+			rowPool = append(rowPool, "k"+encStr(clean()))
+		} else {
+			rowPool = append(rowPool, "n"+strconv.Itoa(r.Pick(0, 1, 2, 7)))
+		}
+	}
+	for i := 0; i < r.Range(2, 6); i++ {
+		if ck {
+			colPool = append(colPool, "k"+encStr(clean()))
+		} else {
+			colPool = append(colPool, "n"+strconv.FormatUint(r.PickU(0, 1, sw-1, sw, sw+1, 2*sw+3, 3*sw, 4*sw+5, 5*sw, 6*sw+1, 7*sw), 10))
+		}
+	}
+	var bits []string
+	for i := 0; i < r.Range(3, 8); i++ {
+		bits = append(bits, rowPool[r.Intn(len(rowPool))]+":"+colPool[r.Intn(len(colPool))])
+	}
+	vh.Count(fmt.Sprintf("rtc:rk%d-ck%d", b2i(rk), b2i(ck)))
+	return fmt.Sprintf("rtc %d %d %d 2 %s", b2i(rk), b2i(ck), r.Pick(0, 2, 3, 1000), strings.Join(bits, ";"))
+}
+
 func (p *prop) Gen(r *vh.Rng, tier string, n int) []vh.Case {
 	var cases []vh.Case
 	for k := 0; k < n; k++ {
 		cr := r.Fork()
 		var line string
 		var nt bool
+		if k < 2 || (tier == "thorough" && cr.Chance(1, 40)) {
+			// clustered round trips: slower (a 3-node cluster is started once per stream)
+			cases = append(cases, vh.Case{Lines: []string{p.genRTC(cr)}, Nontrivial: true})
+			continue
+		}
 		switch x := cr.Intn(100); {
 		case x < 3:
 			line = "pu " + encStr(cr.PickS("0", "7", "007", "", "x", "-1", "+1", "1_0", " 1", "1 ", "18446744073709551615", "18446744073709551616",
@@ -596,6 +643,8 @@ func (p *prop) execLine(l string) string {
 		return "imp=" + impErr(ierr) + " dst=" + p.contents(di)
 	case len(ws) == 6 && ws[0] == "rt":
 		return p.execRT(ws)
+	case len(ws) == 6 && ws[0] == "rtc":
+		return p.execRTC(ws)
 	}
 	return "bad-op"
 }
@@ -674,6 +723,186 @@ func (p *prop) execRT(ws []string) string {
 	return "csv=" + encStr(out.String()) + " imp=" + impErr(ierr) + " dst=" + p.contents(di)
 }
 
+func (p *prop) cluster() *srv2.Cluster {
+	if p.cl == nil {
+		c, err := srv2.Start(3, 2, 2)
+		if err != nil {
+			panic(err)
+		}
+		p.cl = c
+	}
+	return p.cl
+}
+
+func shardPairs(ps [][2]string) string { return strings.Replace(encPairs(ps), ";", "+", -1) }
+
+// execRTC: rt on the 3-node / 2-replica cluster, reading every node's own fragments.
+func (p *prop) execRTC(ws []string) string {
+	if (ws[1] != "0" && ws[1] != "1") || (ws[2] != "0" && ws[2] != "1") || (ws[1] == "0" && ws[2] == "0") || ws[4] != "2" {
+		return "bad-op"
+	}
+	rk, ck := ws[1] == "1", ws[2] == "1"
+	buf, err1 := strconv.Atoi(ws[3])
+	if err1 != nil || ws[5] == "-" {
+		return "bad-op"
+	}
+	req := &pilosa.ImportRequest{Field: "f"}
+	for _, b := range strings.Split(ws[5], ";") {
+		rc := strings.Split(b, ":")
+		if len(rc) != 2 {
+			return "bad-op"
+		}
+		r, c := decLab(rc[0]), decLab(rc[1])
+		if !r.valid || !c.valid || r.key != rk || c.key != ck {
+			return "bad-op"
+		}
+		if rk {
+			req.RowKeys = append(req.RowKeys, r.s)
+		} else {
+			req.RowIDs = append(req.RowIDs, r.n)
+		}
+		if ck {
+			req.ColumnKeys = append(req.ColumnKeys, c.s)
+		} else {
+			req.ColumnIDs = append(req.ColumnIDs, c.n)
+		}
+	}
+	cl := p.cluster()
+	ctx := context.Background()
+	coord := cl.Nodes[0].API
+	// Schema changes need cluster state NORMAL on every node; on a loaded machine gossip can flap for a
+	// moment, so wait and retry with fresh index names (counted) instead of reporting a harness artefact.
+	var si, di string
+	mk := func() error {
+		p.idx++
+		si, di = fmt.Sprintf("cs%d", p.idx), fmt.Sprintf("cd%d", p.idx)
+		for _, ix := range []string{si, di} {
+			if _, err := coord.CreateIndex(ctx, ix, pilosa.IndexOptions{Keys: ck}); err != nil {
+				return err
+			}
+			opts := []pilosa.FieldOption{pilosa.OptFieldTypeSet(pilosa.CacheTypeNone, 0)}
+			if rk {
+				opts = append(opts, pilosa.OptFieldKeys())
+			}
+			if _, err := coord.CreateField(ctx, ix, "f", opts...); err != nil {
+				return err
+			}
+		}
+		return nil
+	}
+	var serr error
+	for attempt := 0; attempt < 6; attempt++ {
+		cl.WaitNormal(30 * time.Second)
+		if serr = mk(); serr == nil {
+			break
+		}
+		vh.Count("rtc:schema-retry")
+		_ = coord.DeleteIndex(ctx, si)
+		_ = coord.DeleteIndex(ctx, di)
+		time.Sleep(300 * time.Millisecond)
+	}
+	if serr != nil {
+		return "err:schema"
+	}
+	defer coord.DeleteIndex(ctx, si)
+	defer coord.DeleteIndex(ctx, di)
+	req.Index = si
+	if err := coord.Import(ctx, req); err != nil {
+		return "err:fill-source"
+	}
+	// Replicas receive the coordinator's key log asynchronously; an export served by a replica before the
+	// keys have arrived writes EMPTY keys (observed, timing dependent - see design/C30.md). The tie is
+	// about the import path, so wait until every node can translate every bit it holds.
+	deadline := time.Now().Add(20 * time.Second)
+	for {
+		ready := true
+		for _, n := range cl.Nodes {
+			m, err := pilosa.VerifC30ShardContents(n.API, n.API, si, "f")
+			if err != nil {
+				return "err:contents"
+			}
+			for _, ps := range m {
+				for _, pr := range ps {
+					if pr[0] == "" || pr[1] == "" {
+						ready = false
+					}
+				}
+			}
+		}
+		if ready {
+			break
+		}
+		if time.Now().After(deadline) {
+			return "err:key-replication-timeout"
+		}
+		vh.Count("rtc:waited-for-key-replication")
+		time.Sleep(10 * time.Millisecond)
+	}
+	var out bytes.Buffer
+	ex := ctl.NewExportCommand(strings.NewReader(""), &out, ioutil.Discard)
+	ex.Host, ex.Index, ex.Field = cl.Nodes[1].API.Node().URI.HostPort(), si, "f"
+	if err := ex.Run(ctx); err != nil {
+		return "csv=err:export imp=- rep=- stray=0"
+	}
+	f, err := ioutil.TempFile("", "verif-c30-csv-")
+	if err != nil {
+		panic(err)
+	}
+	defer os.Remove(f.Name())
+	_, _ = f.WriteString(out.String())
+	f.Close()
+	im := ctl.NewImportCommand(strings.NewReader(""), ioutil.Discard, ioutil.Discard)
+	im.Host = cl.Nodes[2].API.Node().URI.HostPort()
+	im.Index, im.Field, im.Paths, im.BufferSize = di, "f", []string{f.Name()}, buf
+	ierr := im.Run(ctx)
+	// every node's own fragments, keys through the coordinator's translate store
+	held := make([]map[uint64][][2]string, len(cl.Nodes))
+	shardSet := map[uint64]bool{}
+	for i, n := range cl.Nodes {
+		m, err := pilosa.VerifC30ShardContents(n.API, coord, di, "f")
+		if err != nil {
+			return "err:contents"
+		}
+		held[i] = m
+		for s := range m {
+			shardSet[s] = true
+		}
+	}
+	var shards []uint64
+	for s := range shardSet {
+		shards = append(shards, s)
+	}
+	sort.Slice(shards, func(i, j int) bool { return shards[i] < shards[j] })
+	stray := 0
+	var parts []string
+	for _, s := range shards {
+		owners, err := coord.ShardNodes(ctx, di, s)
+		if err != nil {
+			return "err:shard-nodes"
+		}
+		isOwner := map[string]bool{}
+		for _, o := range owners {
+			isOwner[o.ID] = true
+		}
+		var copies []string
+		for i, n := range cl.Nodes { // node ids node0 < node1 < node2
+			if isOwner[n.API.Node().ID] {
+				copies = append(copies, shardPairs(held[i][s]))
+			} else {
+				stray += len(held[i][s])
+			}
+		}
+		parts = append(parts, strconv.FormatUint(s, 10)+":"+strings.Join(copies, "|"))
+	}
+	rep := "-"
+	if len(parts) > 0 {
+		rep = strings.Join(parts, ";")
+	}
+	vh.Count("rtc:imp=" + impErr(ierr))
+	vh.Count(fmt.Sprintf("rtc:dst-shards=%d", len(shards)))
+	return "csv=" + encStr(out.String()) + " imp=" + impErr(ierr) + " rep=" + rep + " stray=" + strconv.Itoa(stray)
+}
+
 func main() {
 	if pf := os.Getenv("VERIF_C30_PROF"); pf != "" {
 		f, _ := os.Create(pf)
@@ -685,6 +914,9 @@ func main() {
 		if p.m != nil {
 			_ = p.m.Close()
 			_ = os.RemoveAll(p.m.Config.DataDir)
+		}
+		if p.cl != nil {
+			p.cl.Stop()
 		}
 	}()
 	vh.Main(p)
